@@ -27,10 +27,20 @@ props! {
     c07 => "C07",
     c08 => "C08",
     c09 => "C09",
+    c10 => "C10",
     c11 => "C11",
     c12 => "C12",
     c13 => "C13",
     c14 => "C14",
+    c15 => "C15",
+    c16 => "C16",
+    c17 => "C17",
+    c18 => "C18",
+    c19 => "C19",
+    c20 => "C20",
+    c21 => "C21",
+    c22 => "C22",
+    c23 => "C23",
     c24 => "C24",
     c25 => "C25",
     c26 => "C26",
@@ -54,6 +64,8 @@ pub fn internal(cmd: &str, args: &[String]) -> i32 {
         "__iql" => scratch_iql(&args[0]),
         "__c07" => c07::child_main(),
         "__c13work" => c13::child_main(),
+        "__c16work" => c16::child_main(),
+        "__c21" => c21::child_main(args),
         _ => {
             eprintln!("unknown internal command");
             2
